@@ -81,6 +81,38 @@ func (c *ctx) isolated(n int, stall time.Duration, f func(i int)) error {
 					break
 				}
 				lines, done, reason := runChild(next, hi, stall, stats[w])
+				if done < hi && reason == "hang" {
+					// a stall may be the machine, not the code: run the stalled case once more, alone,
+					// with six times the patience, and keep that run's verdict
+					keep := 0
+					for i, l := range lines {
+						if strings.HasPrefix(l, "case ") {
+							keep = i
+						}
+					}
+					if len(lines) > 0 && !strings.HasPrefix(lines[keep], "case ") {
+						keep = len(lines)
+					}
+					closed := true
+					for _, l := range lines[keep:] {
+						if strings.HasPrefix(l, "case ") {
+							closed = false
+						} else if l == "end" {
+							closed = true
+						}
+					}
+					if !closed {
+						lines = lines[:keep] // the open case is re-run from its start
+					}
+					l2, d2, r2 := runChild(done, done+1, 6*stall, stats[w])
+					lines = append(lines, l2...)
+					if d2 > done {
+						outs[w] = append(outs[w], lines...)
+						next = done + 1
+						continue
+					}
+					reason = r2
+				}
 				outs[w] = append(outs[w], lines...)
 				if done >= hi {
 					break
